@@ -362,6 +362,8 @@ def check(pid, tier, jobs, seed, only_group=None, verbose=False):
                     print('  witness diverged:', it['group'], res.get('why'), file=sys.stderr)
             continue
         if res.get('reproduced'):
+            if res.get('label'):
+                it = dict(it, label=res['label'], sig=res.get('sig'))
             k = match_known(known, pid, it['group'], it['label'], it['sig'])
             if k is not None:
                 known_hits.setdefault(k['id'], k)
